@@ -26,6 +26,7 @@ THEOREMS = [
     'AbacusVerif.Units.units_table',
     'AbacusVerif.Units.units_loaded',
     'AbacusVerif.Units.ratio_columns',
+    'AbacusVerif.Units.sigman_columns',
     'AbacusVerif.Units.dispersion_identity',
 ]
 LEAN_MODULES = ['AbacusVerif.Props.C05']
